@@ -365,6 +365,14 @@ impl<E: ElemT> TableWorld<E> {
         let after = self.shape(si);
         let hashes = self.ctx.last_counts[Class::Hash as usize];
         self.ctx.note_transition(before, &after, hashes);
+        // I6: while the bucket count stays the same, growth_left + items + tombstones is conserved (every
+        // operation only moves slots between the three accounts)
+        if !before.singleton && !after.singleton && before.buckets == after.buckets {
+            let (b, a) = (before.growth_left + before.items + before.deleted, after.growth_left + after.items + after.deleted);
+            if a != b {
+                vio!(self, "inv/I6", "capacity budget changed at constant bucket count {}: growth_left+items+tombstones {} -> {} (before: {}+{}+{}, after: {}+{}+{})", after.buckets, b, a, before.growth_left, before.items, before.deleted, after.growth_left, after.items, after.deleted);
+            }
+        }
         if !self.ctx.functional() {
             let act = self.actual(si);
             self.slots[si].model = act.into_iter().map(|x| x.0).collect();
